@@ -63,9 +63,10 @@ fn unused_run(_t: &[&str]) -> String {
 
 /// One `cargo check`; returns for each source line the error codes reported there,
 /// and the raw error lines that could not be attributed to a line of src/lib.rs.
-fn cargo_check(dir: &Path) -> (BTreeMap<usize, BTreeSet<String>>, Vec<String>) {
+fn cargo_check(dir: &Path, target: &Path) -> (BTreeMap<usize, BTreeSet<String>>, Vec<String>) {
     let out = Command::new("cargo")
-        .args(["check", "--offline", "--quiet", "--message-format=short"])
+        .args(["check", "--offline", "--quiet", "--message-format=short", "--target-dir"])
+        .arg(target)
         .current_dir(dir)
         .env("CARGO_NET_OFFLINE", "true")
         .env_remove("RUSTFLAGS")
@@ -136,7 +137,11 @@ fn run_batch() {
     let (params, header): (Vec<&String>, Vec<&String>) = prelude.iter().partition(|l| l.starts_with("PARAMS "));
     let params = params.first().map(|l| l["PARAMS ".len()..].to_string()).unwrap_or_default();
 
-    let dir = corpus_dir();
+    // one crate directory per process (two checks may run at the same time), one shared target
+    // directory (so retrofire-core is compiled once; cargo's own lock serialises the builds)
+    let base = corpus_dir();
+    let dir = base.join(format!("run-{}", std::process::id()));
+    let target = base.join("target");
     std::fs::create_dir_all(dir.join("src")).unwrap();
     let manifest = format!(
         "[package]\nname = \"corpus10\"\nversion = \"0.0.0\"\nedition = \"2021\"\n\n[workspace]\n\n[dependencies]\n\
@@ -160,9 +165,9 @@ fn run_batch() {
             src.push_str(&format!("pub fn p{k}({params}) {{ {} }}\n", bodies[i].as_ref().unwrap()));
         }
         std::fs::write(dir.join("src/lib.rs"), &src).unwrap();
-        let (by_line, stray) = cargo_check(&dir);
+        let (by_line, stray) = cargo_check(&dir, &target);
         if !stray.is_empty() {
-            eprintln!("c10: errors outside the generated programs (prelude / toolchain problem):");
+            eprintln!("c10: errors outside the generated programs (prelude / toolchain problem); crate left in {dir:?}:");
             for s in stray.iter().take(10) {
                 eprintln!("  {s}");
             }
@@ -202,6 +207,7 @@ fn run_batch() {
         };
         writeln!(stdout, "{c} => {res}").unwrap();
     }
+    let _ = std::fs::remove_dir_all(&dir);
 }
 
 fn main() {
